@@ -26,3 +26,23 @@ Lemma replay_pacing act id t recorded :
   tick_replay (Some {| dp_active := act; dp_delay_remaining := 0; dp_items := DMEnd id :: t |}) recorded =
   (Some {| dp_active := filter (fun x => negb (x =? id)) act; dp_delay_remaining := src_REPLAY_PACING; dp_items := t |}, None).
 Proof. reflexivity. Qed.
+
+(* mouse buttons: the model's table of button codes is the source's, and the code a button is written with (Linux output) is
+   the code it was read from: the two regenerated tables are inverse to each other, for all five buttons *)
+From KV Require Import Kanata.Glue.
+Lemma button_codes_agree :
+  forallb (fun p => match btn_of_code (fst p) with Some b => b =? snd p | None => false end) src_osc_to_btn = true /\
+  length src_osc_to_btn = 5%nat.
+Proof. split; reflexivity. Qed.
+
+Lemma button_codes_round_trip :
+  forallb (fun p => match btn_of_code (snd p) with Some b => b =? fst p | None => false end) src_btn_to_osc = true /\
+  map fst src_btn_to_osc = [0; 1; 2; 3; 4].
+Proof. split; reflexivity. Qed.
+
+Lemma every_button_code_comes_out_as_itself code b :
+  btn_of_code code = Some b -> In (b, code) src_btn_to_osc.
+Proof.
+  unfold btn_of_code.
+  repeat match goal with |- context [?u =? ?v] => destruct (N.eqb_spec u v) end; intros H; inversion H; subst; cbn; tauto.
+Qed.
